@@ -617,4 +617,127 @@ theorem C11_step_untouched (f f' : Field) (op : Op) (h : step f op = .ok f')
   | removeEntryAt p =>
     exact keeps_removeEntryAt f f' p h p0 x hx hi (fun e => hne (by rw [e]; rfl))
 
+/-! ### composed over histories -/
+
+/-- no call of the history addresses the root child that starts at position `p` (followed through the
+    position maps of the calls) -/
+def NotAddressed (f : Field) : List Op → Nat → Prop
+  | [], _ => True
+  | op :: ops, p => op.target f ≠ some p
+      ∧ ∀ f1 p1, step f op = .ok f1 → op.rootRemap f p = some p1 → NotAddressed f1 ops p1
+
+/-- where the root child at `p` is after the history -/
+def track (f : Field) : List Op → Nat → Option Nat
+  | [], p => some p
+  | op :: ops, p =>
+    match step f op with
+    | .ok f1 => (op.rootRemap f p).bind (track f1 ops)
+    | .panic _ => none
+
+/-- any executed history of `Op`s: an ENTRY / SUBSTVAR child of the root that no call addressed is
+    still in the tree afterwards, the identical node, at the position the composed position maps give -/
+theorem C11_history_untouched (f f' : Field) (ops : List Op) (h : run f ops = .ok f')
+    (p0 : Nat) (x : RNode) (hx : f.kids[p0]? = some x) (hi : isItemNode x = true)
+    (hn : NotAddressed f ops p0) :
+    ∃ p', track f ops p0 = some p' ∧ f'.kids[p']? = some x := by
+  induction ops generalizing f p0 with
+  | nil =>
+    simp only [run, Outcome.ok.injEq] at h
+    exact ⟨p0, rfl, by rw [← h]; exact hx⟩
+  | cons op ops ih =>
+    simp only [run] at h
+    cases hs : step f op with
+    | panic s => rw [hs] at h; simp [Outcome.bind] at h
+    | ok f1 =>
+      rw [hs] at h
+      simp only [Outcome.bind] at h
+      obtain ⟨p1, hp1, hx1⟩ := C11_step_untouched f f1 op hs p0 x hx hi hn.1
+      obtain ⟨p', hp', hx'⟩ := ih f1 h p1 hx1 (hn.2 f1 p1 hs hp1)
+      exact ⟨p', by simp only [track, hs, hp1, Option.bind_some]; exact hp', hx'⟩
+
+/-- the same for calls addressed by index (`irun`, the histories of `C11_history_refines`) -/
+def INotAddressed (f : Field) : List IOp → Nat → Prop
+  | [], _ => True
+  | o :: os, p => ∀ op, o.resolve f = some op → op.target f ≠ some p
+      ∧ ∀ f1 p1, step f op = .ok f1 → op.rootRemap f p = some p1 → INotAddressed f1 os p1
+
+def itrack (f : Field) : List IOp → Nat → Option Nat
+  | [], p => some p
+  | o :: os, p =>
+    match o.resolve f with
+    | some op =>
+      (match step f op with
+        | .ok f1 => (op.rootRemap f p).bind (itrack f1 os)
+        | .panic _ => none)
+    | none => none
+
+theorem C11_ihistory_untouched (f f' : Field) (os : List IOp) (h : irun f os = .ok f')
+    (p0 : Nat) (x : RNode) (hx : f.kids[p0]? = some x) (hi : isItemNode x = true)
+    (hn : INotAddressed f os p0) :
+    ∃ p', itrack f os p0 = some p' ∧ f'.kids[p']? = some x ∧ childText f'.kids p' = x.text := by
+  induction os generalizing f p0 with
+  | nil =>
+    simp only [irun, Outcome.ok.injEq] at h
+    exact ⟨p0, rfl, by rw [← h]; exact hx, by rw [← h]; simp [childText, hx]⟩
+  | cons o os ih =>
+    simp only [irun, istep] at h
+    cases hr : o.resolve f with
+    | none => rw [hr] at h; simp [Outcome.bind] at h
+    | some op =>
+      rw [hr] at h
+      simp only at h
+      cases hs : step f op with
+      | panic s => rw [hs] at h; simp [Outcome.bind] at h
+      | ok f1 =>
+        rw [hs] at h
+        simp only [Outcome.bind] at h
+        obtain ⟨hn1, hn2⟩ := hn op hr
+        obtain ⟨p1, hp1, hx1⟩ := C11_step_untouched f f1 op hs p0 x hx hi hn1
+        obtain ⟨p', hp', hx'⟩ := ih f1 h p1 hx1 (hn2 f1 p1 hs hp1)
+        exact ⟨p', by simp only [itrack, hr, hs, hp1, Option.bind_some]; exact hp', hx'⟩
+
+/-! ### non-vacuity -/
+
+/-- `a | b, ${v}, c`: both alternatives of the first entry removed through their handles (the entry
+    goes with the second), `Entry::replace` on `c`: the substvar is never addressed, moves from position
+    3 to position 0 and is the same node -/
+def exF : Field := ⟨(readRelaxed "a | b, ${v}, c".toList true).1.children, [], []⟩
+def exRel : RNode := toLossless ⟨"n".toList, none, none, none, []⟩
+def exOps : List Op := [.removeRelationAt 0 0, .removeRelationAt 0 0, .entryReplace 3 0 exRel]
+
+def okText (o : Outcome Field) : Option Str := match o with | .ok f => some f.root.text | .panic _ => none
+def cutText (o : Outcome Cut) : Option Str := match o with | .ok c => some (textList c.kids) | .panic _ => none
+
+/-- a decision procedure for `NotAddressed` -/
+def notAddressedB (f : Field) : List Op → Nat → Bool
+  | [], _ => true
+  | op :: ops, p => decide (op.target f ≠ some p) &&
+    (match step f op, op.rootRemap f p with
+      | .ok f1, some p1 => notAddressedB f1 ops p1
+      | _, _ => true)
+
+theorem notAddressedB_sound (f : Field) (ops : List Op) (p : Nat) (h : notAddressedB f ops p = true) :
+    NotAddressed f ops p := by
+  induction ops generalizing f p with
+  | nil => trivial
+  | cons op ops ih =>
+    simp only [notAddressedB, Bool.and_eq_true, decide_eq_true_eq] at h
+    refine ⟨h.1, fun f1 p1 h1 hp1 => ?_⟩
+    have h2 := h.2
+    rw [h1, hp1] at h2
+    exact ih f1 p1 h2
+
+example : okText (run exF exOps) = some "${v}, n".toList ∧ (exF.kids[3]?).map (·.text) = some "${v}".toList
+    ∧ (exF.kids[3]?).map isItemNode = some true ∧ track exF exOps 3 = some 0 := by
+  decide +kernel
+
+example : NotAddressed exF exOps 3 := notAddressedB_sound _ _ _ (by decide +kernel)
+
+/-- the frames on a concrete field: `Relation::remove` of `a` in `a | b, ${v}, c`, `Entry::replace` of `b` -/
+example : okText (exF.removeRelationAt 0 0) = some "b, ${v}, c".toList
+    ∧ okText (exF.entryReplaceAt 0 1 exRel) = some "a | n, ${v}, c".toList
+    ∧ cutText (entryRemove exF.kids 0) = some "${v}, c".toList
+    ∧ cutText (relationRemoveIn (exF.entryKids 0) 0) = some "b".toList := by
+  decide +kernel
+
 end Deb822Verif.Props.C11Frames
